@@ -17,7 +17,6 @@ Nothing here calls the function under test of any monitor in order to compute an
 from __future__ import annotations
 
 import itertools
-import random
 import sys
 import time
 from collections import OrderedDict, defaultdict, deque, namedtuple
